@@ -1,0 +1,97 @@
+//go:build verif
+
+// Contracts for the symbol cache, checked by /verif/cmd/vcgo.
+// Comments only; compiled only under the `verif` tag.
+
+package cache
+
+// Representation invariant of a usable cache: at least one scope, scopes are
+// distinct non-nil maps, a symbol lives in at most one scope, every live
+// symbol has a declared limit, and the used size respects the capacity.
+//@ pred visible(ca, k) = exists(i, 0, len(ca.Cache), in(k, ca.Cache[i]))
+//@ pred shape(ca) = ca != nil && len(ca.Cache) >= 1 && ca.Sizes != nil
+//@   && forall(i, 0, len(ca.Cache), ca.Cache[i] != nil)
+//@   && forall(i, 0, len(ca.Cache), forall(j, 0, i, ca.Cache[i] != ca.Cache[j]))
+//@ pred unique(ca) = forall(i, 0, len(ca.Cache), forall(j, 0, i, all[string](k, !(in(k, ca.Cache[i]) && in(k, ca.Cache[j])))))
+//@ pred sized(ca) = all[string](k, visible(ca, k) ==> in(k, ca.Sizes))
+// the used size equals the summed length of all stored values (uint32 arithmetic), and that sum respects the capacity
+//@ ghost total(ca) = tsum(ca.Cache, 0, len(ca.Cache))
+//@ pred acct(ca) = int(ca.CacheUseSize) == total(ca) % 4294967296
+//@ pred capped(ca) = ca.CacheSize > 0 ==> total(ca) <= int(ca.CacheSize)
+//@ pred wf(ca) = shape(ca) && unique(ca) && sized(ca) && acct(ca) && capped(ca)
+//@ ghost top(ca) = ca.Cache[len(ca.Cache)-1]
+// the value and scope of a visible symbol
+//@ pred sameScopes(ca) = len(ca.Cache) == old(len(ca.Cache)) && forall(i, 0, len(ca.Cache), ca.Cache[i] == old(ca.Cache[i]))
+
+//@ func (*Cache).frameOf
+//@   requires shape(ca)
+//@   ensures @range result >= -1 && result < len(ca.Cache)
+//@   ensures @found result >= 0 ==> in(key, ca.Cache[result]) && forall(j, 0, result, !in(key, ca.Cache[j]))
+//@   ensures @absent result == -1 ==> forall(j, 0, len(ca.Cache), !in(key, ca.Cache[j]))
+//@   loop 1 invariant 0 <= _i && _i <= len(ca.Cache) && forall(j, 0, _i, !in(key, ca.Cache[j]))
+//@   loop 2 invariant 0 <= i && i < len(ca.Cache) && m == ca.Cache[i] && forall(j, 0, i, !in(key, ca.Cache[j]))
+//@     && all[string](k, visited(k) ==> k != key)
+
+//@ func (*Cache).checkCapacity
+//@   requires ca != nil && (ca.CacheSize > 0 ==> int(ca.CacheUseSize) + len(v) < 4294967296)
+//@   ensures @unlimited ca.CacheSize == 0 ==> int(result) == len(v)
+//@   ensures @fits ca.CacheSize > 0 && int(ca.CacheUseSize) + len(v) <= int(ca.CacheSize) ==> int(result) == len(v)
+//@   ensures @full ca.CacheSize > 0 && int(ca.CacheUseSize) + len(v) > int(ca.CacheSize) ==> result == 0
+
+//@ func NewCache
+//@   ensures[C09] @wf wf(result) && fresh(result) && len(result.Cache) == 1 && result.CacheUseSize == 0 && result.CacheSize == 0
+//@   ensures[C09] @empty all[string](k, !in(k, result.Cache[0])) && msum(result.Cache[0]) == 0
+//@   use tsumOne(result.Cache, 0)
+
+//@ pred mapsOk(ca) = forall(i, 0, len(ca.Cache), ca.Cache[i] != nil)
+//@   && forall(i, 0, len(ca.Cache), forall(j, 0, i, ca.Cache[i] != ca.Cache[j]))
+//@ func (*Cache).Push
+//@   requires ca != nil
+//@   modifies ca.Cache, ca.Cache[*]
+//@   ensures @len len(ca.Cache) == old(len(ca.Cache)) + 1 && result == nil
+//@   ensures @kept forall(i, 0, old(len(ca.Cache)), ca.Cache[i] == old(ca.Cache[i]))
+//@   ensures @new fresh(top(ca)) && all[string](k, !in(k, top(ca))) && msum(top(ca)) == 0
+//@   ensures[C09] @maps old(mapsOk(ca)) ==> mapsOk(ca)
+//@   ensures[C09] @unique old(unique(ca)) ==> unique(ca)
+//@   ensures[C09] @sized old(sized(ca)) ==> sized(ca)
+
+//@ func (*Cache).Pop
+//@   requires wf(ca)
+//@   modifies ca.Cache, ca.Cache[*], ca.CacheUseSize, ca.Sizes[*]
+//@   ensures[C09,C08] @shape shape(ca) && result == nil
+//@   ensures[C09,C08] @unique unique(ca)
+//@   ensures[C09,C08] @sized sized(ca)
+//@   ensures[C09,C08] @acct acct(ca) && capped(ca)
+//@   ensures[C09] @total total(ca) == old(total(ca)) - old(msum(top(ca)))
+//@   use old(tsumSplit(ca.Cache, 0, len(ca.Cache)-1, len(ca.Cache))) && old(tsumOne(ca.Cache, len(ca.Cache)-1)) && old(tsumOne(ca.Cache, 0))
+//@   use tsumSame(ca.Cache, 0, old(len(ca.Cache))-1) && tsumOne(ca.Cache, 0)
+//@   ensures[C09,C05] @scopes old(len(ca.Cache)) > 1 ==> len(ca.Cache) == old(len(ca.Cache)) - 1
+//@     && forall(i, 0, len(ca.Cache), ca.Cache[i] == old(ca.Cache[i]))
+//@   ensures[C09,C05] @last old(len(ca.Cache)) == 1 ==> len(ca.Cache) == 1 && all[string](k, !in(k, ca.Cache[0])) && msum(ca.Cache[0]) == 0
+//@   ensures[C09] @released int(ca.CacheUseSize) == (old(int(ca.CacheUseSize)) - old(msum(top(ca)))) % 4294967296
+//@   ensures[C09,C05] @sizes all[string](k, in(k, ca.Sizes) <==> (old(in(k, ca.Sizes)) && !old(in(k, top(ca)))))
+//@   loop 1 modifies ca.CacheUseSize, ca.Sizes[*]
+//@   loop 1 invariant @members all[string](k, visited(k) ==> in(k, m))
+//@   loop 1 invariant @bytes int(ca.CacheUseSize) == (old(int(ca.CacheUseSize)) - vsum(m)) % 4294967296
+//@   loop 1 invariant @sizes all[string](k, in(k, ca.Sizes) <==> (old(in(k, ca.Sizes)) && !visited(k)))
+
+// Add: the declared limit is enforced for every value length; a rejected call
+// changes nothing; an accepted call defines the symbol in the current scope
+// only and accounts for exactly its bytes.
+//@ func (*Cache).Add
+//@   requires wf(ca) && int(ca.CacheSize) + len(value) < 4294967296
+//@   modifies ca.CacheUseSize, ca.LastValue, ca.Sizes[key], ca.Cache[len(ca.Cache)-1][key]
+//@   ensures[C09,C08] @shape shape(ca) && sameScopes(ca)
+//@   ensures[C09,C08] @unique unique(ca)
+//@   ensures[C09,C08] @sized sized(ca)
+//@   ensures[C09,C08] @acct acct(ca) && capped(ca)
+//@   ensures[C09,C05] @limit sizeLimit > 0 && len(value) > int(sizeLimit) ==> result != nil
+//@   ensures[C09,C05] @dup old(visible(ca, key)) ==> result != nil
+//@   ensures[C09] @capacity ca.CacheSize > 0 && old(total(ca)) + len(value) > int(ca.CacheSize) ==> result != nil
+//@   ensures[C09] @rejected result != nil ==> unchanged(ca.CacheUseSize, ca.LastValue) && in(key, ca.Sizes) == old(in(key, ca.Sizes)) && ca.Sizes[key] == old(ca.Sizes[key])
+//@     && in(key, top(ca)) == old(in(key, top(ca))) && top(ca)[key] == old(top(ca)[key]) && total(ca) == old(total(ca))
+//@   ensures[C09,C05] @stored result == nil ==> in(key, top(ca)) && top(ca)[key] == value && in(key, ca.Sizes) && ca.Sizes[key] == sizeLimit
+//@     && total(ca) == old(total(ca)) + len(value) && msum(top(ca)) == old(msum(top(ca))) + len(value) && ca.LastValue == value
+//@   use old(tsumSplit(ca.Cache, 0, len(ca.Cache)-1, len(ca.Cache))) && old(tsumOne(ca.Cache, len(ca.Cache)-1))
+//@   use tsumSplit(ca.Cache, 0, len(ca.Cache)-1, len(ca.Cache)) && tsumOne(ca.Cache, len(ca.Cache)-1)
+//@   use tsumSame(ca.Cache, 0, len(ca.Cache)-1)
